@@ -695,6 +695,69 @@ impl Fixture {
 }
 
 // ------------------------------------------------------------------------------------------------
+// an RPC middleware that gives up on a call when told to (what a per-call deadline does)
+// ------------------------------------------------------------------------------------------------
+
+/// Calls to `sub_r` race against the gate `abandon:<request id>`: when the gate opens first the inner call future
+/// is dropped and the caller gets error -32099. Everything else passes through untouched.
+#[derive(Clone)]
+pub struct GiveUp<S> {
+	pub service: S,
+	pub ctx: Arc<HCtx>,
+}
+
+impl<S> jsonrpsee_core::middleware::RpcServiceT for GiveUp<S>
+where
+	S: jsonrpsee_core::middleware::RpcServiceT<MethodResponse = jsonrpsee_core::server::MethodResponse> + Send + Sync + Clone + 'static,
+{
+	type MethodResponse = S::MethodResponse;
+	type NotificationResponse = S::NotificationResponse;
+	type BatchResponse = S::BatchResponse;
+
+	fn call<'a>(&self, request: jsonrpsee_types::Request<'a>) -> impl Future<Output = Self::MethodResponse> + Send + 'a {
+		let service = self.service.clone();
+		let ctx = self.ctx.clone();
+		async move {
+			if request.method_name() != "sub_r" {
+				return service.call(request).await;
+			}
+			let id = request.id().clone().into_owned();
+			let gate = format!("abandon:{}", serde_json::to_string(&id).unwrap_or_default());
+			let inner = service.call(request);
+			tokio::pin!(inner);
+			tokio::select! {
+				biased;
+				r = &mut inner => r,
+				_ = ctx.gates.wait_async(&gate) => jsonrpsee_core::server::MethodResponse::error(id, jsonrpsee_types::ErrorObject::owned(-32099, "call given up by the middleware", None::<()>)),
+			}
+		}
+	}
+
+	fn batch<'a>(&self, requests: jsonrpsee_core::middleware::Batch<'a>) -> impl Future<Output = Self::BatchResponse> + Send + 'a {
+		self.service.batch(requests)
+	}
+
+	fn notification<'a>(&self, n: jsonrpsee_core::middleware::Notification<'a>) -> impl Future<Output = Self::NotificationResponse> + Send + 'a {
+		self.service.notification(n)
+	}
+}
+
+impl Fixture {
+	/// A WebSocket session whose service has the `GiveUp` middleware in front of the RPC service
+	pub async fn ws_with_give_up_middleware(&self) -> Result<WsPeer, String> {
+		use jsonrpsee_server::middleware::rpc::RpcServiceBuilder;
+		let ctx = self.ctx.clone();
+		let svc = self.builder.clone().set_rpc_middleware(RpcServiceBuilder::new().layer_fn(move |service| GiveUp { service, ctx: ctx.clone() })).build(self.methods.clone(), self.stop.clone());
+		let (client_io, server_io) = tokio::io::duplex(64 * 1024);
+		let stop = self.stop.clone();
+		let conn = tokio::spawn(async move {
+			let _ = jsonrpsee_server::serve_with_graceful_shutdown(server_io, svc, stop.shutdown()).await;
+		});
+		WsPeer::connect(client_io, conn).await
+	}
+}
+
+// ------------------------------------------------------------------------------------------------
 // low-level entry points: ws::connect and http::call_with_service_builder behind a tower::service_fn
 // ------------------------------------------------------------------------------------------------
 
